@@ -7,7 +7,7 @@ namespace Conc
 
 def holdsCore : Pc → Bool
   | .a1 | .a2 _ | .a3 _ | .a4 _ | .a6 _ | .a7 _ _ | .a8 _ => true
-  | .r1 _ | .rErr | .rL _ | .rC _ _ _ | .rP _ _ | .s1 _ _ | .s2 _ _ | .s3 _ _ => true
+  | .r1 _ | .rErr | .rL _ | .rC _ _ _ | .rP _ _ | .s1 _ _ | .s2 _ _ | .s3 _ _ | .o1 => true
   | _ => false
 
 def holdsH : Pc → Option Hid
